@@ -640,7 +640,14 @@ func NewSandbox() (*Sandbox, error) {
 	if err != nil {
 		return nil, err
 	}
-	sb := &Sandbox{Top: top, Root: filepath.Join(top, filepath.FromSlash(chain), "models")}
+	// Odd shards keep the store in a directory whose name is full of pattern metacharacters (a models directory such
+	// as "/data/models [v2]" is legitimate): code that lets the directory's own path take part in a glob or a regexp
+	// then stops finding the names that are there.
+	leaf := "models"
+	if sh, _ := strconv.Atoi(os.Getenv("VERIF_SHARD")); sh%2 == 1 || os.Getenv("VERIF_REPLAY") != "" {
+		leaf = `mod[e-l]s *v?\2 {a,b}`
+	}
+	sb := &Sandbox{Top: top, Root: filepath.Join(top, filepath.FromSlash(chain), leaf)}
 	if err := os.MkdirAll(sb.Root, 0o755); err != nil {
 		return nil, err
 	}
@@ -662,7 +669,8 @@ func (sb *Sandbox) ResetManifests() {
 // entries are deleted after they have been reported, so that one escaping case cannot leak into
 // the verdict of the next (shrinking and replay stay faithful).
 func (sb *Sandbox) Audit() (manifests []string, err error) {
-	rootRel := chain + "/models"
+	rootRel, _ := filepath.Rel(sb.Top, sb.Root)
+	rootRel = filepath.ToSlash(rootRel)
 	var bad []string
 	flag := func(path string, d fs.DirEntry, format string, args ...any) error {
 		if err == nil {
